@@ -39,17 +39,15 @@ Definition round8 (a : q) : Z :=
   else if d <? r2 then fl + 1
   else if Z.even fl then fl else fl + 1.
 
-(** types/aggregate.go Max: fold with [if maxNumber < f then maxNumber = f], started from the
-    first element ([fix: oracle Max of negative values]); Min: fold with
-    [if minNum > f], started from MaxFloat64, which every finite float64 is <= to, so the
-    result is the least element for non-empty data. *)
+(** types/aggregate.go Max: fold with [if maxNumber < f then maxNumber = f], started from
+    -MaxFloat64 (since the commit "fix: oracle Max aggregate starts from -MaxFloat64"; before it
+    the seed was SmallestNonzeroFloat64, a positive number, see [smallest_nonzero] in Proofs.v);
+    Min: fold with [if minNum > f], started from MaxFloat64. *)
 Fixpoint qmax_from (acc : q) (l : list q) : q :=
   match l with [] => acc | x :: l' => qmax_from (if qlt acc x then x else acc) l' end.
 Fixpoint qmin_from (acc : q) (l : list q) : q :=
   match l with [] => acc | x :: l' => qmin_from (if qlt x acc then x else acc) l' end.
 
-(** math.SmallestNonzeroFloat64 = 2^-1074 (the seed of the unfixed Max) *)
-Definition smallest_nonzero : q := (1, 2 ^ 1074).
 (** math.MaxFloat64 = 2^1024 - 2^971 *)
 Definition max_float : q := (2 ^ 1024 - 2 ^ 971, 1).
 
@@ -57,7 +55,7 @@ Definition AGG_MAX : Z := 0.
 Definition AGG_MIN : Z := 1.
 Definition AGG_AVG : Z := 2.
 
-Definition agg_max (l : list q) : q := qmax_from smallest_nonzero l.
+Definition agg_max (l : list q) : q := qmax_from (- fst max_float, 1) l.
 Definition agg_min (l : list q) : q := qmin_from max_float l.
 Definition agg_avg (l : list q) : q :=
   let s := qsum l in (fst s, snd s * Z.of_nat (length l)).
@@ -89,8 +87,14 @@ Record feed := mkFeed { f_agg : Z; f_path : Z; f_lh : Z; f_ctx : Z; f_creator : 
 Record sctx := mkCtx {
   x_consumer : Z; x_state : Z; x_thr : Z; x_nprov : Z; x_timeout : Z; x_freq : Z;
   x_bc : Z;      (* batch counter *)
-  x_bthr : Z     (* response threshold snapshot of the current batch *)
+  x_bthr : Z;    (* response threshold snapshot of the current batch *)
+  x_open : bool  (* batch state = BATCH_RUNNING *)
 }.
+
+Definition ctx_with_state (x : sctx) (st : Z) : sctx :=
+  mkCtx (x_consumer x) st (x_thr x) (x_nprov x) (x_timeout x) (x_freq x) (x_bc x) (x_bthr x) (x_open x).
+Definition ctx_with_open (x : sctx) (b : bool) : sctx :=
+  mkCtx (x_consumer x) (x_state x) (x_thr x) (x_nprov x) (x_timeout x) (x_freq x) (x_bc x) (x_bthr x) b.
 
 Definition fval := (Z * Z)%type.                       (* data * 10^8, block time *)
 
